@@ -159,8 +159,9 @@ def r3_channels(ctx, rep, R='C02.R3'):
         if isinstance(n, ast.Assign) and isinstance(n.value, ast.Call) and \
                 (dotted(n.value.func) or '').endswith('TestResult'):
             res = n.targets[0].id
-    loops = [n for n in g.nodes if n.kind == 'for' and any(
-        (dotted(c.func) or '').endswith('TestResult') for b in n.stmt.body for c in calls_in(b))]
+    from .common import repeat_loop
+    _rl = repeat_loop(ctx, fi, g)
+    loops = [_rl] if _rl is not None else []
     want = [('failures', 'failures'), ('failures', 'unexpectedSuccesses'), ('errors', 'errors')]
     cnt = 0
     for acc, attr in want:
